@@ -883,11 +883,91 @@ let judge_equal4 f =
     | _ -> S "domain" in
   out_line id "equal4" ["C04", c04; "C19", c19] ""
 
+(* ==================== BEGIN dump mode (tools/coqeval.py; DESIGN 7: extraction cross-check) ====================
+   `oracle -dump`: instead of verdicts, print for each case line of a supported kind ONE line
+       id <TAB> <canonical rendering of what the extracted model returns>
+   for the main model call the judge of that kind makes, on inputs decoded from the case line exactly
+   as the judge decodes them (same field names, unhex, mk_opts, z_of_int).  Nothing the implementation
+   observed is read.  tools/coqeval.py evaluates the same calls inside Coq (vm_compute) and compares.
+   Renderings:  OUT x<hex> | ERR <op index or -> <class> [<limit> <total>] | MERR <class> | PANIC | NONE
+                | SOME <number of operations> | TRUE | FALSE | TRUE FALSE (two answers)          *)
+let rec int_of_pos (p : positive) : int = match p with XH -> 1 | XO q -> 2 * int_of_pos q | XI q -> 2 * int_of_pos q + 1
+let int_of_z (x : z) : int = match x with Z0 -> 0 | Zpos p -> int_of_pos p | Zneg p -> - (int_of_pos p)
+let d_out (b : bytes) = "OUT " ^ tohex (string_of_bytes b)
+let d_bool b = if b then "TRUE" else "FALSE"
+let d_err (i : nat option) (e : errclass) =
+  Printf.sprintf "ERR %s %s%s" (match i with Some n -> string_of_int (int_of_nat n) | None -> "-") (errclass_str e)
+    (match e with ECopyLimit (l, t) -> Printf.sprintf " %d %d" (int_of_z l) (int_of_z t) | _ -> "")
+let d_mres = function
+  | MOut b -> d_out b
+  | MErr e -> "MERR " ^ (match e with MBadDoc -> "bad-doc" | MBadPatch -> "bad-patch" | MBadTypes -> "bad-types")
+
+let dump_case (kind : string) f : string option =
+  match kind with
+  | "apply" ->                                  (* judge_apply: api_decode, then api_apply under the case's options *)
+    let o = mk_opts (get f "flags") (int_of_string (get f "limit")) in
+    let indent = unhex (get f "indent") in
+    let patch = unhex (get f "patch") and doc = unhex (get f "doc") in
+    Some (match api_decode (bytes_of_string patch) with
+        | None -> "NONE"
+        | Some ops ->
+          (match api_apply o (bytes_of_string indent) ops (bytes_of_string doc) with
+           | ROut b -> d_out b | RErr (i, e) -> d_err i e | RPanic -> "PANIC"))
+  | "apply4" ->                                 (* judge_apply4 *)
+    let flags = get f "flags" in
+    let g = { g_neg = flags.[0] = '1'; g_limit = z_of_int (int_of_string (get f "limit")); g_nullsz = None } in
+    let indent = unhex (get f "indent") in
+    let patch = unhex (get f "patch") and doc = unhex (get f "doc") in
+    Some (match api_decode4 (bytes_of_string patch) with
+        | None -> "NONE"
+        | Some ops ->
+          (match api_apply4 g (bytes_of_string indent) ops (bytes_of_string doc) with
+           | Out4 b -> d_out b | Err4 (i, e) -> d_err i e | Panic4 -> "PANIC"))
+  | "merge" ->                                  (* judge_merge *)
+    let doc = unhex (get f "doc") and patch = unhex (get f "patch") in
+    Some (d_mres (api_merge (get f "mode" = "mm") (bytes_of_string doc) (bytes_of_string patch)))
+  | "merge4" ->                                 (* judge_merge4 *)
+    let doc = unhex (get f "doc") and patch = unhex (get f "patch") in
+    Some (d_mres (api_merge4 false (bytes_of_string doc) (bytes_of_string patch)))
+  | "merge3" | "merge34" ->                     (* judge_merge3: the combined patch of p1 and p2 *)
+    let p1 = unhex (get f "p1") and p2 = unhex (get f "p2") in
+    Some (d_mres ((if kind = "merge34" then api_merge4 else api_merge) true (bytes_of_string p1) (bytes_of_string p2)))
+  | "create" | "create4" ->                     (* judge_create (the legacy judge evaluates the same model) *)
+    let a = unhex (get f "a") and b = unhex (get f "b") in
+    Some (d_mres (api_create (bytes_of_string a) (bytes_of_string b)))
+  | "equal" ->                                  (* judge_equal *)
+    let a = unhex (get f "a") and b = unhex (get f "b") in
+    Some (d_bool (api_equal (bytes_of_string a) (bytes_of_string b)))
+  | "equal4" ->                                 (* judge_equal4 judges against jeq only; the legacy model is dumped all the same *)
+    let a = unhex (get f "a") and b = unhex (get f "b") in
+    Some (match api_equal4 (bytes_of_string a) (bytes_of_string b) with None -> "NONE" | Some r -> d_bool r)
+  | "decode" ->                                 (* judge_decode *)
+    Some (match api_decode (bytes_of_string (unhex (get f "in"))) with
+        | None -> "NONE" | Some ops -> Printf.sprintf "SOME %d" (List.length ops))
+  | "valid" ->                                  (* judge_valid: translated scanner, RFC 8259 reader *)
+    let b = bytes_of_string (unhex (get f "in")) in
+    Some (d_bool (model_valid b) ^ " " ^ d_bool (parse b <> None))
+  | "cli" ->                                    (* judge_cli *)
+    let files = if get f "files" = "" then [] else String.split_on_char ';' (get f "files") in
+    let pfiles = List.map (fun fl ->
+        match String.index_opt fl ':' with
+        | Some i when String.sub fl 0 i = "file" -> PFile (hexb (String.sub fl (i+1) (String.length fl - i - 1)))
+        | _ -> PUnreadable) files in
+    Some (match cli_run pfiles (bytes_of_string (unhex (get f "stdin"))) with Some b -> d_out b | None -> "NONE")
+  | _ -> None
+
+let dump_mode = Array.length Sys.argv > 1 && Sys.argv.(1) = "-dump"
+(* ==================== END dump mode ==================== *)
+
 let () =
   try
     while true do
       let line = input_line stdin in
       match split_tab line with
+      | kind :: rest when dump_mode ->
+        let f = fields_of rest in
+        (try (match dump_case kind f with Some s -> Printf.printf "%s\t%s\n" (get f "id") s | None -> ())
+         with e -> Printf.printf "%s\tEXN %s\n" (get f "id") (esc_note (Printexc.to_string e)))
       | kind :: rest ->
         let f = fields_of rest in
         (try
